@@ -589,7 +589,8 @@ theorem authPathOf_eq_map (g : Nat → D) (n i : Nat) :
 theorem updateFromLeafMutation_spec (g : Nat → D) (n i j : Nat) (d : D) (hi : i < n) (hj : j < n) (hn : n < 2 ^ 63) :
     ∃ b, updateFromLeafMutation H (authPathOf H g n i) i ⟨j, d, authPathOf H g n j⟩
         = some (authPathOf H (Function.update g j d) n i, b) ∧
-      (b = false → authPathOf H (Function.update g j d) n i = authPathOf H g n i) := by
+      (b = false → authPathOf H (Function.update g j d) n i = authPathOf H g n i) ∧
+      (b = true ↔ ∃ t < (locate n i).1, sibBlk (i / 2 ^ t) = j / 2 ^ t) := by
   have hli : (authPathOf H g n i).length = (locate n i).1 := by unfold authPathOf; rw [sibPath_length]
   have hlj : (authPathOf H g n j).length = (locate n j).1 := by unfold authPathOf; rw [sibPath_length]
   have hO := own_node_indices n i hi hn
@@ -620,23 +621,24 @@ theorem updateFromLeafMutation_spec (g : Nat → D) (n i j : Nat) (d : D) (hi : 
   have ndL : L.Nodup := by rw [← hL]; exact (nodup_eraseDupsNat O).filter _
   match L, memL, ndL with
   | [], memL, _ =>
-    have key : authPathOf H (Function.update g j d) n i = authPathOf H g n i := by
-      rw [authPathOf_eq_map, authPathOf_eq_map]
-      apply List.map_congr_left
-      intro t ht
-      have ht' := List.mem_range.mp ht
-      apply slot_unchanged
-      intro hm
+    have nomeet : ∀ t < (locate n i).1, sibBlk (i / 2 ^ t) ≠ j / 2 ^ t := by
+      intro t ht' hm
       have h1 := meet_height n i j t hi ht' hm
       have : nodeIdx t (sibBlk (i / 2 ^ t)) ∈ ([] : List Nat) :=
         (memL _).mpr ⟨(memO _).mpr ⟨t, ht', rfl⟩, (memA _).mpr ⟨t, by omega, by rw [hm]⟩⟩
       simp at this
-    exact ⟨false, by simp [key], fun _ => key⟩
+    have key : authPathOf H (Function.update g j d) n i = authPathOf H g n i := by
+      rw [authPathOf_eq_map, authPathOf_eq_map]
+      apply List.map_congr_left
+      intro t ht
+      exact slot_unchanged H g i j t d (nomeet t (List.mem_range.mp ht))
+    exact ⟨false, by simp [key], fun _ => key,
+      ⟨fun h => Bool.noConfusion h, fun ⟨t, ht, hm⟩ => absurd hm (nomeet t ht)⟩⟩
   | [x], memL, _ =>
     obtain ⟨hxO, hxA⟩ := (memL x).mp (by simp)
     obtain ⟨t0, ht0, rfl, hm0⟩ := meet x hxO hxA
     have ht0j := meet_height n i j t0 hi ht0 hm0
-    refine ⟨true, ?_, fun h => by cases h⟩
+    refine ⟨true, ?_, fun h => Bool.noConfusion h, ⟨fun _ => ⟨t0, ht0, hm0⟩, fun _ => rfl⟩⟩
     simp only
     have hx : nodeIdx t0 (sibBlk (i / 2 ^ t0)) = nodeIdx (0 + t0) (j / 2 ^ t0) := by rw [hm0, Nat.zero_add]
     have hlt0 : nodeIdx t0 (j / 2 ^ t0) < 2 ^ 64 := anc_idx_lt n j t0 hj hn (by omega)
@@ -1043,5 +1045,104 @@ theorem batchUpdateFromBatchLeafMutation_spec (g : Nat → D) (n : Nat) (ms : Li
     exact replace_path_spec H n g _ S' m' false li (hlis li hli) hinv (by simp)
 
 end Batch3
+
+section Dup
+variable {D : Type} [DecidableEq D] (H : D → D → D)
+
+omit [DecidableEq D] in
+/-- the walk only adds keys -/
+theorem deducible_keeps_keys (stop : Option Nat) (sk u il : Bool) : ∀ (path : List D) (ni : Nat) (acc : D)
+    (m m' : AMap D) (a : D), deducible H stop sk u il path ni acc m = some (m', a) →
+    ∀ k, (AMap.get? m k).isSome → (AMap.get? m' k).isSome := by
+  intro path
+  induction path with
+  | nil => intro ni acc m m' a h k hk; simp only [deducible, Option.some.injEq, Prod.mk.injEq] at h; rw [← h.1]; exact hk
+  | cons hash rest ih =>
+    intro ni acc m m' a h k hk
+    rw [deducible] at h
+    split at h
+    · simp only [Option.some.injEq, Prod.mk.injEq] at h; rw [← h.1]; exact hk
+    · split at h
+      · simp only [Option.some.injEq, Prod.mk.injEq] at h; rw [← h.1]; exact hk
+      · split at h
+        · cases h
+        · apply ih _ _ _ _ _ h k
+          split
+          · exact hk
+          · rw [get?_insert]; split
+            · rfl
+            · exact hk
+
+omit [DecidableEq D] in
+/-- a mutation of a leaf whose node is already stored: `assert!(former_value.is_none())` fails -/
+theorem mutationsLoop_stored_panics (lc : Nat) : ∀ (l : List (LeafMutation D)) (m : AMap D) (pk : List D),
+    (∃ x ∈ l, (AMap.get? m (leaf_index_to_node_index x.leaf_index)).isSome) →
+    mutationsLoop H false lc l m pk = none := by
+  intro l
+  induction l with
+  | nil => intro m pk ⟨x, hx, _⟩; simp at hx
+  | cons y rest ih =>
+    intro m pk ⟨x, hx, hs⟩
+    rw [mutationsLoop]
+    by_cases hy : (AMap.get? m (leaf_index_to_node_index y.leaf_index)).isSome
+    · simp [hy]
+    · have hxr : x ∈ rest := by
+        rcases List.mem_cons.mp hx with he | hr
+        · subst he; exact absurd hs hy
+        · exact hr
+      simp only [hy, Bool.false_eq_true, if_false, Bool.not_false, Option.bind_eq_bind]
+      cases hd : deducible H none true true false y.path (leaf_index_to_node_index y.leaf_index) y.new_leaf
+          (AMap.insert m (leaf_index_to_node_index y.leaf_index) y.new_leaf) with
+      | none => rfl
+      | some r =>
+        obtain ⟨m2, acc⟩ := r
+        simp only [Option.bind_some]
+        apply ih
+        refine ⟨x, hxr, deducible_keeps_keys H _ _ _ _ _ _ _ _ _ _ hd _ ?_⟩
+        rw [get?_insert]; split
+        · rfl
+        · exact hs
+
+omit [DecidableEq D] in
+theorem mutationsLoop_dup_panics (lc : Nat) : ∀ (l : List (LeafMutation D)) (m : AMap D) (pk : List D),
+    ¬ (l.map (·.leaf_index)).Nodup → mutationsLoop H false lc l m pk = none := by
+  intro l
+  induction l with
+  | nil => intro m pk h; simp at h
+  | cons y rest ih =>
+    intro m pk h
+    simp only [List.map_cons, List.nodup_cons, not_and_or, not_not] at h
+    rw [mutationsLoop]
+    by_cases hy : (AMap.get? m (leaf_index_to_node_index y.leaf_index)).isSome
+    · simp [hy]
+    · simp only [hy, Bool.false_eq_true, if_false, Bool.not_false, Option.bind_eq_bind]
+      cases hd : deducible H none true true false y.path (leaf_index_to_node_index y.leaf_index) y.new_leaf
+          (AMap.insert m (leaf_index_to_node_index y.leaf_index) y.new_leaf) with
+      | none => rfl
+      | some r =>
+        obtain ⟨m2, acc⟩ := r
+        simp only [Option.bind_some]
+        rcases h with h | h
+        · obtain ⟨x, hx, he⟩ := List.mem_map.mp h
+          apply mutationsLoop_stored_panics
+          refine ⟨x, hx, deducible_keeps_keys H _ _ _ _ _ _ _ _ _ _ hd _ ?_⟩
+          rw [he, get?_insert, if_pos rfl]; rfl
+        · exact ih _ _ h
+
+/-- **duplicated mutated leafs are refused** by `batch_update_from_batch_leaf_mutation`, whatever the proofs -/
+theorem batchUpdateFromBatchLeafMutation_dup_panics (paths : List (List D)) (lis : List Nat)
+    (lms : List (LeafMutation D)) (h : ¬ (lms.map (·.leaf_index)).Nodup) :
+    batchUpdateFromBatchLeafMutation H paths lis lms = none := by
+  unfold batchUpdateFromBatchLeafMutation
+  have : ¬ (lms.reverse.map (·.leaf_index)).Nodup := by
+    intro hc
+    apply h
+    rw [List.map_reverse] at hc
+    have := List.pairwise_reverse.mp hc
+    exact this.imp Ne.symm
+  rw [mutationsLoop_dup_panics H 0 lms.reverse [] [] this]
+  split <;> rfl
+
+end Dup
 
 end TF.MmrE
